@@ -452,14 +452,23 @@ class CollisionArray:
         # Evaluate the original collisions on the interpolated grid, create a new
         # polynomial from the result and finally a new CollisionArray from the
         # polynomial data
-        newShape = 2 * (
-            len(source.particles),
-            targetGrid.N - 1,
-            targetGrid.N - 1,
-        )
+        # Polynomial.evaluate returns the data ordered as (point, a, b, j, k), with
+        # point = alpha * (N - 1) + beta. Split the point axis and move the particle
+        # axis a in front of (alpha, beta) to get the order (a, alpha, beta, b, j, k).
+        nbrParticles = len(source.particles)
         interpolatedData = np.array(source.polynomialData.evaluate(gridPoints, (1, 2)))[
             ..., : targetGrid.N - 1, : targetGrid.N - 1
-        ].reshape(newShape)
+        ].reshape(
+            (
+                targetGrid.N - 1,
+                targetGrid.N - 1,
+                nbrParticles,
+                nbrParticles,
+                targetGrid.N - 1,
+                targetGrid.N - 1,
+            )
+        )
+        interpolatedData = np.moveaxis(interpolatedData, 2, 0)
 
         interpolatedPolynomial = Polynomial(
             interpolatedData,
